@@ -142,7 +142,7 @@ pub fn run(cfg: Config) -> i32 {
 fn success_grid(m: &mut Monitor, cfg: &Config) {
     let pairs = hydrocarbon_pairs(1.5);
     m.note("hydrocarbon_pairs", json!(pairs.len()));
-    let stride = cfg.tier.pick(12, 1);
+    let stride = cfg.tier.pick(4, 1);
     let sel: Vec<Pair> = pairs.into_iter().enumerate().filter(|(i, _)| i % stride == 0).map(|(_, p)| p).collect();
     par_cases(m, &sel, |m, ci, pr| {
         let tlow = pr.tc[0].min(pr.tc[1]);
@@ -212,7 +212,7 @@ fn check_flash(m: &mut Monitor, fam: &str, case: u64, f: &PhaseEquilibrium<Model
 
 fn zoo_mixtures(m: &mut Monitor, cfg: &Config) {
     let col = Collections::load();
-    let n = cfg.tier.pick(500, 20_000);
+    let n = cfg.tier.pick(2500, 20_000);
     let idx: Vec<u64> = (0..n).collect();
     par_cases(m, &idx, |m, _, &i| {
         let mut rng = Rng::derive(cfg.seed, "c05-zoo", i);
@@ -330,7 +330,7 @@ fn zoo_mixtures(m: &mut Monitor, cfg: &Config) {
 
 fn diagrams(m: &mut Monitor, cfg: &Config) {
     let pairs = hydrocarbon_pairs(1.8);
-    let n = cfg.tier.pick(30, 600);
+    let n = cfg.tier.pick(100, 600);
     let idx: Vec<u64> = (0..n).collect();
     par_cases(m, &idx, |m, _, &i| {
         let mut rng = Rng::derive(cfg.seed, "c05-diag", i);
